@@ -1,12 +1,18 @@
 #!/bin/sh
-# tools/soak.sh <sessions> <seed-from> <seed-to> [props...]: look for false alarms under many base seeds
+# tools/soak.sh <sessions> <seed-from> <seed-to> [props...]: look for false alarms under many base seeds.
+# Runs against a frozen detached worktree of /repo's HEAD (under /var/tmp, removed at the end), so that fix: commits made in
+# /repo while a long soak is running do not put the snapshot's reference code out of step with the library.
 N=$1; A=$2; B=$3; shift 3
 PROPS="${*:-C08 C12 C13 C14 C16}"
 cd "$(dirname "$0")/.." || exit 2
+W=/var/tmp/soak_repo_$$
+git -C /repo worktree add --detach -q "$W" HEAD || exit 2
+trap 'git -C /repo worktree remove --force "$W" >/dev/null 2>&1; git -C /repo worktree prune' EXIT INT TERM
+echo "soak against /repo $(git -C "$W" rev-parse --short HEAD) frozen at $W"
 rc=0
 for s in $(seq "$A" "$B"); do
   for p in $PROPS; do
-    out=$(./check "$p" --seed "$s" --sessions "$N" --no-evidence 2>&1)
+    out=$(VERIF_REPO="$W" ./check "$p" --seed "$s" --sessions "$N" --no-evidence 2>&1)
     st=$?
     echo "seed=$s $p exit=$st $(echo "$out" | tail -1)"
     if [ $st -ne 0 ]; then echo "$out" | tail -12; rc=1; fi
